@@ -39,6 +39,9 @@ type Scenario struct {
 	KDDHex       string   `json:"kdd_hex,omitempty"`        // ECDSA key derivation delta
 	PartyKeys    []string `json:"party_keys,omitempty"`     // decimal party id keys (keygen / new committee)
 	ExpectRefuse bool     `json:"expect_refuse,omitempty"`  // the scenario must be refused by Start() before anything is sent
+	NonceSum     int64    `json:"nonce_sum,omitempty"`      // ECDSA signing: force the signers' nonce shares k_i to sum to this small value
+	SilentNode   int      `json:"silent_node,omitempty"`    // party that goes silent (crash) ...
+	SilentAfter  int      `json:"silent_after,omitempty"`   // ... after this many scheduler steps
 	Schedule []pump.Step `json:"schedule,omitempty"` // recorded schedule (for replay)
 }
 
@@ -113,6 +116,23 @@ func BuildConfig(sc Scenario) (cfg pump.Config, err error) {
 			return cfg, fmt.Errorf("bad party key %q", k)
 		}
 		cfg.PartyKeys = append(cfg.PartyKeys, v)
+	}
+	if sc.NonceSum != 0 && sc.Proto == pump.EcSigning {
+		// k_1 = NonceSum - sum of the others (mod q); each forced value is handed to the signer as the first
+		// 32 bytes its random source yields, which round 1 turns into k_i
+		q := tss.S256().Params().N
+		rng := rand.New(rand.NewSource(sc.Seed + 99))
+		rest := big.NewInt(0)
+		draws := make([][]byte, sc.N)
+		for i := 1; i < sc.N; i++ {
+			k := new(big.Int).Rand(rng, q)
+			rest.Add(rest, k)
+			draws[i] = k.FillBytes(make([]byte, 32))
+		}
+		k1 := new(big.Int).Sub(big.NewInt(sc.NonceSum), rest)
+		k1.Mod(k1, q)
+		draws[0] = k1.FillBytes(make([]byte, 32))
+		cfg.FirstDraws = draws
 	}
 	if sc.KDDHex != "" {
 		v, ok := new(big.Int).SetString(sc.KDDHex, 16)
@@ -230,8 +250,17 @@ func secretsOf(cfg pump.Config, idx int, role string) [][]byte {
 	return out
 }
 
+// ExecOpts are per-run hooks of a property check.
+type ExecOpts struct {
+	Prepare   func(s *pump.Session, cfg *pump.Config)               // after the session is built
+	EventHook func(s *pump.Session, n *pump.Node, e *ev.Event)      // fills extra event fields
+	AfterStep func(step int, s *pump.Session, rec *RunRecord) error // after every scheduler step
+}
+
 // ExecScenario runs one scenario on the real code and records its trace.
-func ExecScenario(sc Scenario) (*RunRecord, error) {
+func ExecScenario(sc Scenario) (*RunRecord, error) { return ExecScenarioOpts(sc, ExecOpts{}) }
+
+func ExecScenarioOpts(sc Scenario, opts ExecOpts) (*RunRecord, error) {
 	t0 := time.Now()
 	cfg, err := BuildConfig(sc)
 	if err != nil {
@@ -246,6 +275,10 @@ func ExecScenario(sc Scenario) (*RunRecord, error) {
 		return nil, err
 	}
 	rec := &RunRecord{Sc: sc, Session: s}
+	s.EventHook = opts.EventHook
+	if opts.Prepare != nil {
+		opts.Prepare(s, &cfg)
+	}
 	secrets := map[int][][]byte{}
 	for _, n := range s.Nodes {
 		idx := n.PID.Index
@@ -286,15 +319,46 @@ func ExecScenario(sc Scenario) (*RunRecord, error) {
 		return o
 	}
 	if sc.Schedule != nil {
-		if err := s.Replay(sc.Schedule); err != nil {
-			return nil, err
+		for i, st := range sc.Schedule {
+			if err := s.Apply(st); err != nil {
+				return nil, err
+			}
+			if opts.AfterStep != nil {
+				if err := opts.AfterStep(i+1, s, rec); err != nil {
+					return nil, err
+				}
+			}
 		}
 	} else {
 		strat, err := pump.StrategyByName(sc.Strategy)
 		if err != nil {
 			return nil, err
 		}
-		rec.Sc.Schedule = s.Run(strat, rand.New(rand.NewSource(sc.Seed)), 200000)
+		rng := rand.New(rand.NewSource(sc.Seed))
+		var sched []pump.Step
+		for len(sched) < 200000 {
+			if sc.SilentNode > 0 && len(sched) == sc.SilentAfter {
+				st := pump.Step{Op: "silence", Node: sc.SilentNode}
+				s.Apply(st)
+				sched = append(sched, st)
+				continue
+			}
+			en := s.Enabled()
+			if len(en) == 0 {
+				break
+			}
+			st := strat(s, en, rng)
+			if err := s.Apply(st); err != nil {
+				return nil, err
+			}
+			sched = append(sched, st)
+			if opts.AfterStep != nil {
+				if err := opts.AfterStep(len(sched), s, rec); err != nil {
+					return nil, err
+				}
+			}
+		}
+		rec.Sc.Schedule = sched
 	}
 	rec.Events = mem.Events
 	rec.Sent = s.SentMultiset()
@@ -306,6 +370,9 @@ func ExecScenario(sc Scenario) (*RunRecord, error) {
 		rec.Finished = append(rec.Finished, len(n.Results) == 1 && r == ev.Done)
 		if n.Err != nil {
 			rec.Errs = append(rec.Errs, fmt.Sprintf("party %d: %v", n.G, n.Err))
+		}
+		if n.Panic != "" {
+			rec.Errs = append(rec.Errs, fmt.Sprintf("party %d PANIC in the library: %s", n.G, core.Short(n.Panic, 600)))
 		}
 	}
 	rec.Wall = time.Since(t0).Seconds()
